@@ -28,7 +28,10 @@ fn sane_rate(sr: f32) -> bool {
 
 /// f32 resolution of the filter for inputs bounded by `amp`: DC-gain error of the rounded coefficients
 fn rho(amp: f64, alpha_min: f64) -> f64 {
-    amp * ((0.5f64).powi(22) / alpha_min.max(1e-9) + (0.5f64).powi(20))
+    // relative part (rounding of products and sums of magnitude `amp`) plus the absolute granularity of binary32 near
+    // zero: below 2^-126 the spacing is 2^-149 whatever the magnitude, so signals of a few subnormal units cannot be
+    // resolved at all (the theorems carry the same floor: `C13.range_tight` needs `M >= 2^-100`)
+    amp * ((0.5f64).powi(22) / alpha_min.max(1e-9) + (0.5f64).powi(20)) + (0.5f64).powi(120) / alpha_min.max(1e-9)
 }
 
 pub fn c13(t: &Trace, r: &mut Report) {
